@@ -380,26 +380,26 @@ pub fn run(ctx: &mut Ctx) {
         }
         run_pkts(ctx, *r.pick(&[1usize, 2, 16]), &pk);
     }
-    // ---- 8. one deliberate expiry scenario on the cache's own clock (31 s of real time; thorough only):
-    //         a reference and a bad marker both expire; an expired entry still occupies its slot
+    // ---- 8. one deliberate scenario on the cache's own clock (32 s of real time; thorough only): a steady
+    //         clock seen 31 s apart IS reported (the entries live MAX_TWAIT = 600 s since fix c23ccf6; with the
+    //         former 30 s lifetime the reference had expired and nothing was reported); a bad marker is still in
+    //         force after 31 s. Expiry itself (601 s) is in the model but no longer exercised.
     if ctx.tier == Tier::Thorough {
         let a0 = ev(1, true, T0, 1000);
         let b0 = ev(2, true, T0, 5000);
         let b1 = ev(2, true, T0 + 10, 5001); // too soon: bad marker
         emit_exp(
             ctx,
-            2,
+            4,
             &[
                 (0, a0.clone()),
                 (0, b0.clone()),
                 (5, b1),
-                (1000, ev(1, true, T0 + 1000, 2000)),  // live: 1000 Hz
-                (31_000, ev(1, true, T0 + 31_000, 32_000)), // reference expired: stored again
-                (31_000, ev(2, true, T0 + 31_000, 36_000)), // bad marker expired: stored again
-                (32_000, ev(1, true, T0 + 32_000, 32_100)), // against the new reference: 100 Hz
-                (32_000, ev(2, true, T0 + 32_000, 37_000)),
-                (32_000, ev(3, true, T0 + 32_000, 1)),      // third key: evicts the oldest
-                (32_001, ev(1, true, T0 + 33_000, 32_200)),
+                (1000, ev(1, true, T0 + 1000, 2000)),        // 1000 Hz
+                (31_000, ev(1, true, T0 + 31_000, 32_000)),  // 31 s after the reference: still 1000 Hz
+                (31_000, ev(2, true, T0 + 31_000, 36_000)),  // bad marker still in force
+                (32_000, ev(3, true, T0 + 32_000, 1)),
+                (32_001, ev(3, true, T0 + 33_000, 101)),     // 100 Hz
             ],
         );
     }
